@@ -35,6 +35,8 @@ func init() {
 			{ID: "C08.14", Desc: "other variants remain available: the reference list written back is the list in the store, not a snapshot", Run: func(c *Ctx) { ruleIndexUpdateAtomic(c, "C08.14") }, MinSites: 1},
 			{ID: "C08.15", Desc: "a full cacheable reply to a validation request replaces the stored response whatever its status class", Run: func(c *Ctx) { ruleReplaceWheneverStorable(c, "C08.15") }, MinSites: 1},
 			{ID: "C08.16", Desc: "the response a foreground 304 freshens is the one whose validators were sent", Run: func(c *Ctx) { ruleValidatedEntryIsSentEntry(c, "C08.16") }, MinSites: 1},
+			{ID: "C08.17", Desc: "each stored validator is sent on its own account (a background 304 is recognised)", Run: func(c *Ctx) { ruleEachValidatorOnItsOwn(c, "C08.17") }, MinSites: 1},
+			{ID: "C08.18", Desc: "other variants remain listed: the filter of the reference list runs to the end of the list", Run: func(c *Ctx) { ruleFilterLoopRunsToEnd(c, "C08.18") }, MinSites: 1},
 		},
 	})
 }
